@@ -203,6 +203,10 @@ def family(name, quick=True):
             for d in (0, 2):
                 out.append(("stop_after_attempt(%d),fixed(%d)" % (n, d), pipeline(retry_max=n, delay=d, fail_until=99), []))
         out.append(("retry succeeds on 3rd", pipeline(retry_max=4, delay=1, fail_until=2), []))
+        ph = pipeline(retry_max=2, delay=1, fail_until=99)
+        ph["steps"]["h"] = {"accepts": ["Failed"], "role": "catch_error", "for_steps": ["b"], "max_rec": 1,
+                            "body": [G, {"op": "stop"}]}
+        out.append(("stop_after_attempt(2),fixed(1),handler", ph, []))
         out.append(("non-retryable", pipeline(retry_max=3, delay=1, fail_until=99, exc="KeyError", retry_on=["ValueError"]), []))
         out.append(("retryable typed", pipeline(retry_max=2, delay=1, fail_until=99, exc="ValueError", retry_on=["ValueError"]), []))
         for sd in ((3,) if quick else (1, 3, 6)):
